@@ -898,6 +898,18 @@ val as_item : val0 -> item
 
 val dispatch_ansi : z -> val0 -> val0 option
 
+val rUNE_ERROR : z
+
+val rng : z -> z -> z -> bool
+
+val cont : z -> bool
+
+val decode_rune : str -> z * nat
+
+val utf8_runes_aux : nat -> str -> z list
+
+val utf8_runes : str -> z list
+
 val cOLON : z
 
 val cOMMA : z
@@ -945,6 +957,8 @@ val s_alt : str
 val s_ctrl : str
 
 val s_ctrl_alt : str
+
+val rune_key : str -> str -> key option
 
 val key_of_token : str -> key option
 
@@ -1005,6 +1019,8 @@ val act_denote : act -> action list
 val acts_denote : act list -> action list
 
 val key_denote : str -> key
+
+val keys_denote : str list -> key list
 
 val pair_denote : keymap -> bpair -> keymap
 
@@ -1134,6 +1150,121 @@ val dec_pair : val0 -> bpair
 val dec_bind : val0 -> bind0
 
 val dispatch_bind : z -> val0 -> val0 option
+
+val c_UNDEFINED : z
+
+val a_NONE : z
+
+val a_REGULAR : z
+
+type cattr = z * z
+
+type comp =
+| CColor of z
+| CAttr of z
+| CRegular
+| CNone
+
+val apply_comp : cattr -> comp -> cattr
+
+val apply_comps : cattr -> comp list -> cattr
+
+val attr_names : (str * z) list
+
+val colour_names : (str * z) list
+
+val slot_names : (str * str) list
+
+val base_names : (str * nat) list
+
+val bASE_BW : nat
+
+val bASE_EMPTY : nat
+
+val is_digit0 : z -> bool
+
+val is_hex : z -> bool
+
+val hex_val : z -> z
+
+val dec_value : str -> z
+
+val hex_value : str -> z
+
+val dec_colour0 : str -> z option
+
+val hex_colour : str -> z option
+
+val s_regular : str
+
+val comp_of : str -> comp option
+
+val comps_of : str list -> comp list option
+
+type theme = bool * (str * cattr) list
+
+val slot_get : (str * cattr) list -> str -> cattr
+
+val slot_set : (str * cattr) list -> str -> cattr -> (str * cattr) list
+
+val theme_get : theme -> str -> cattr
+
+val theme_set : theme -> str -> cattr -> theme
+
+type centry = str list
+
+val entry_denote : theme list -> theme -> centry -> theme option
+
+val entries_denote : theme list -> theme -> centry list -> theme option
+
+type copt =
+| OColor of centry list
+| OColorEmpty
+| ONoColor
+
+val copt_denote : theme list -> theme -> copt -> theme option
+
+val copts_denote : theme list -> theme -> copt list -> theme option
+
+val render_entry : centry -> str
+
+val render_entries : centry list -> str
+
+val word_ok : str -> bool
+
+val entry_ok : centry -> bool
+
+val entries_ok : centry list -> bool
+
+val e_COLOR : z
+
+val merge_attr : str list -> cattr -> cattr option
+
+val theme_loop : theme list -> theme -> str list -> theme outcome res
+
+val parse_theme : theme list -> theme -> str -> theme outcome res
+
+val color_opts : theme list -> theme -> (z * str) list -> theme outcome res
+
+val dec_slot : val0 -> str * cattr
+
+val dec_theme : val0 -> theme
+
+val enc_slot : (str * cattr) -> val0
+
+val enc_theme : theme -> val0
+
+val dec_item : val0 -> z * str
+
+val dec_copt : val0 -> copt
+
+val copt_ok : copt -> bool
+
+val copt_word : copt -> z * str
+
+val copt_item : copt -> val0
+
+val dispatch_color : z -> val0 -> val0 option
 
 type item0 = z
 
@@ -2005,15 +2136,15 @@ val cstep1 : 'a1 clist -> 'a1 cop -> 'a1 clist res
 
 val query_cache_max : nat
 
-type 'r centry = (nat * str) * 'r list
+type 'r centry0 = (nat * str) * 'r list
 
-type 'r cache = { c_entries : 'r centry list; c_gen : nat }
+type 'r cache = { c_entries : 'r centry0 list; c_gen : nat }
 
 val cache_new : 'a1 cache
 
 val is_full : nat -> bool
 
-val efind : 'a1 centry list -> nat -> str -> 'a1 list option
+val efind : 'a1 centry0 list -> nat -> str -> 'a1 list option
 
 val cfind : 'a1 cache -> nat -> str -> 'a1 list option
 
@@ -2349,7 +2480,7 @@ val vnone : val0
 
 val vsome : val0 -> val0
 
-val is_digit0 : z -> bool
+val is_digit1 : z -> bool
 
 val digits_val0 : z -> str -> z option
 
@@ -3188,6 +3319,16 @@ val template_words : seg list -> str list option
 
 val join_sp : str list -> str
 
+type sitem = z * str
+
+val current_items : sitem option -> sitem list
+
+val plus_items : sitem option -> sitem list -> sitem list
+
+val join_with : str -> str list -> str
+
+val file_text : str -> str list -> str
+
 val esc_sh : str -> str
 
 val esc_fish : str -> str
@@ -3268,7 +3409,7 @@ val s_fzf_colon : str
 
 val parse_placeholder : str -> (flags * str) res
 
-val is_digit1 : z -> bool
+val is_digit2 : z -> bool
 
 val digits_val1 : z -> str -> z option
 
@@ -3288,19 +3429,19 @@ val s_dd : str
 
 val split_dd : str -> str -> str list
 
-type rng = z * z
+type rng0 = z * z
 
-val new_range1 : z -> z -> rng
+val new_range1 : z -> z -> rng0
 
 val atoi_nz : str -> z option
 
-val parse_range0 : str -> rng option
+val parse_range0 : str -> rng0 option
 
 val split_comma : str -> str -> str list
 
-val parse_ranges : str list -> rng list option
+val parse_ranges : str list -> rng0 list option
 
-val split_nth0 : str -> rng list option
+val split_nth0 : str -> rng0 list option
 
 type awk_state0 =
 | AwkNil0
@@ -3321,9 +3462,9 @@ val sel_go : str list -> z -> z -> z -> str
 
 val sel : str list -> z -> z -> str
 
-val transform1 : str list -> rng -> str
+val transform1 : str list -> rng0 -> str
 
-val transform_join : str list -> rng list -> str
+val transform_join : str list -> rng0 list -> str
 
 val ascii_space0 : z -> bool
 
@@ -3368,9 +3509,9 @@ val quoted : params -> str -> str * str
 
 val repl_item : params -> flags -> item3 -> str * str
 
-val field_value : params -> flags -> rng list -> str -> str res
+val field_value : params -> flags -> rng0 list -> str -> str res
 
-val repl_fields : params -> flags -> rng list -> item3 -> (str * str) res
+val repl_fields : params -> flags -> rng0 list -> item3 -> (str * str) res
 
 val map_res0 : ('a1 -> 'a2 res) -> 'a1 list -> 'a2 list res
 
@@ -3389,6 +3530,30 @@ val replace_structured :
 
 val replace_placeholder : params -> str -> str list -> (str * str list) res
 
+val force_update_of : str -> bool
+
+val plus_of : str -> bool
+
+val preview_flags : piece list -> (bool * bool) * bool
+
+val has_preview_flags : str -> (bool * bool) * bool
+
+val min_item : item3
+
+val opt_items : item3 option -> item3 list
+
+val build_plus_list :
+  str -> bool -> item3 option -> item3 list -> bool * (item3 list * item3
+  list)
+
+val with_items : params -> item3 list -> item3 list -> params
+
+val terminal_expand :
+  params -> item3 option -> item3 list -> str -> str list ->
+  (bool * (str * str list)) res
+
+val own_files : params -> piece -> str list res
+
 val vopt_words : str list option -> val0
 
 val as_item1 : val0 -> item3
@@ -3402,6 +3567,10 @@ val as_seg : val0 -> seg
 val v_outp : outp -> val0
 
 val v_piece : piece -> val0
+
+val v_item : item3 -> val0
+
+val as_optitem : val0 -> item3 option
 
 val dispatch_placeholder : z -> val0 -> val0 option
 
@@ -3435,6 +3604,20 @@ val no_stale_alive : tmpl -> uistate -> seen_cmd list -> bool
 val none_alive : seen_cmd list -> bool
 
 val explains : args list -> args list -> bool
+
+val requested_offset : z -> z -> z -> z -> z
+
+val constrain1 : z -> z -> z -> z
+
+val final_offset : z -> z -> z -> z
+
+val header_rows : z -> z -> z -> z
+
+val zseq0 : z -> nat -> z list
+
+val visible_lines : z -> z -> z -> z -> z list
+
+val shows_requested_part : z -> z -> z -> z -> z -> z list -> bool
 
 type request0 = { r_t : tmpl; r_items0 : z list; r_query0 : str }
 
@@ -3499,6 +3682,8 @@ type label1 =
 | LChangePreview of tmpl
 | LRefresh
 | LToggle
+| LHideWin
+| LShowWin
 | LRender
 | LDisplay
 | LTake0
@@ -3548,6 +3733,26 @@ val box_empty0 : state -> bool
 
 val quiescent0 : policy -> state -> bool
 
+type sstate2 = { k_n : z; k_spin : nat option; k_off : z option;
+                 k_box : (z * z option) option; k_wn : z; k_woff : z;
+                 k_eof : bool; k_lost : bool; k_edge : bool }
+
+type slabel =
+| GLine
+| GTick
+| GEof
+| RDisplay
+
+val sinit0 : z -> z -> sstate2
+
+val carries_offset : (z * z option) option -> bool
+
+val sstep1 : bool -> z -> z -> slabel -> sstate2 -> sstate2 option
+
+val srun1 : bool -> z -> z -> slabel list -> sstate2 -> sstate2
+
+val sdone : sstate2 -> bool
+
 val as_tmpl : val0 -> tmpl
 
 val as_ui : val0 -> uistate
@@ -3581,6 +3786,16 @@ val d_canonical : policy -> tmpl -> uistate -> label1 list -> val0
 val d_spec : tmpl -> uistate -> seen_cmd list -> val0
 
 val d_strict : policy -> tmpl -> uistate -> label1 list -> val0
+
+val d_scroll_spec : z -> z -> z -> z -> z -> z list -> val0
+
+val as_slabel : val0 -> slabel
+
+val repl : nat -> 'a1 -> 'a1 list
+
+val as_sched : val0 -> slabel list
+
+val d_scroll_run : z -> z -> z -> slabel list -> val0
 
 val dispatch_preview : z -> val0 -> val0 option
 
@@ -3854,6 +4069,10 @@ val keep_tail : nat -> 'a1 list -> 'a1 list
 
 val searchable : bool -> nat -> nat -> str -> item5 list
 
+val filter_listing : bool -> bool -> nat -> nat -> str -> item5 list
+
+val session_views : bool -> nat -> nat -> str list -> item5 list list
+
 type slice1 = { sl_buf : nat; sl_off : nat; sl_len : nat }
 
 type mem0 = str list
@@ -3940,6 +4159,46 @@ val pipeline :
   nat -> nat -> nat -> bool -> nat -> nat -> str -> nat list -> (str
   list * item5 list) res
 
+type fopts = { f_read0 : bool; f_sort : bool; f_tac : bool; f_sync : 
+               bool; f_hl : nat; f_tail : nat }
+
+val streaming_rule_old : fopts -> bool
+
+val streaming_filter : fopts -> bool
+
+val build_all : nat -> bstate -> str list -> bstate * item5 list
+
+val filter_run_with :
+  (fopts -> bool) -> nat -> nat -> nat -> fopts -> str -> nat list -> (str
+  list * item5 list) res
+
+val filter_run :
+  nat -> nat -> nat -> fopts -> str -> nat list -> (str list * item5 list) res
+
+type cstate = { c_b : bstate; c_cs : item5 chunklist; c_snap0 : item5 list;
+                c_keep : bool }
+
+val cinit : cstate
+
+val restart0 : cstate -> bool -> cstate
+
+val on_read_new : nat -> nat -> cstate -> cstate res
+
+val on_read_fin : nat -> nat -> cstate -> cstate res
+
+val run_batches :
+  nat -> nat -> nat -> cstate -> str list -> nat list -> cstate res
+
+type load = { l_sync : bool; l_stream : str; l_cuts : nat list;
+              l_news : nat list }
+
+val run_load :
+  nat -> nat -> nat -> bool -> nat -> nat -> cstate -> load -> cstate res
+
+val run_session0 :
+  nat -> nat -> nat -> bool -> nat -> nat -> cstate -> load list -> item5
+  list list res
+
 val as_nats : val0 -> nat list
 
 val vitem0 : item5 -> val0
@@ -3961,6 +4220,18 @@ val d_pipeline : val0 -> val0
 val d_searchable : val0 -> val0
 
 val d_keep_tail : val0 -> val0
+
+val d_filter_run : val0 -> val0
+
+val d_filter_listing : val0 -> val0
+
+val as_load : val0 -> load
+
+val vviews : item5 list list -> val0
+
+val d_session : val0 -> val0
+
+val d_session_views : val0 -> val0
 
 val dispatch_record : z -> val0 -> val0 option
 
@@ -3995,7 +4266,7 @@ type info_style =
 
 type cfg1 = { c_w : nat; c_h0 : nat; c_layout : layout; c_info : info_style;
               c_sep : bool; c_header : str list; c_hlines : str list;
-              c_multi0 : z }
+              c_multi0 : z; c_tabstop : nat }
 
 type view = { v_prompt : str; v_query : str; v_matches : (nat * str) list;
               v_total : nat; v_cy : nat; v_off0 : nat; v_sel : nat list }
@@ -4008,7 +4279,19 @@ val pad : nat -> str -> row
 
 val ell : nat -> str
 
-val trunc : nat -> str -> str
+val tAB : z
+
+val tab_width : nat -> nat -> nat
+
+val expand_from : nat -> nat -> str -> str
+
+val expand : nat -> str -> str
+
+val take_from : nat -> nat -> nat -> str -> str
+
+val take_width : nat -> nat -> str -> str
+
+val show : nat -> nat -> str -> str
 
 val dec_aux : nat -> z -> str -> str
 
@@ -4081,6 +4364,44 @@ val chk_headers :
 
 val check_faithful : cfg1 -> view -> row list -> z list
 
+type mrows = { mr_wrap : bool; mr_multiline : bool; mr_sign : str;
+               mr_marks : z list }
+
+val nLc0 : z
+
+val lines_of_aux : str -> str -> str list
+
+val lines_of : str -> str list
+
+val wrap_line : nat -> nat -> nat -> nat -> bool -> str -> (bool * str) list
+
+val item_lines : cfg1 -> mrows -> str -> (bool * str) list
+
+val row_body : cfg1 -> mrows -> (bool * str) -> str
+
+val mark_of : mrows -> nat -> z
+
+val row_mark : mrows -> bool -> bool -> bool -> nat -> nat -> z
+
+val mapi_from : nat -> (nat -> 'a1 -> 'a2) -> 'a1 list -> 'a2 list
+
+val is_default : cfg1 -> bool
+
+val item_block :
+  cfg1 -> mrows -> view -> nat -> (nat * str) -> nat -> row list
+
+val area_from :
+  cfg1 -> mrows -> view -> nat -> (nat * str) list -> nat -> row list
+
+val mrows_area : cfg1 -> mrows -> view -> nat -> row list
+
+val area_mismatches : cfg1 -> row list -> row list -> nat
+
+val best_offset :
+  cfg1 -> mrows -> view -> row list -> nat list -> (nat * nat) -> nat * nat
+
+val check_mrows : cfg1 -> mrows -> view -> row list -> z list
+
 val clampn : nat -> nat -> nat -> nat
 
 val lines_before : nat -> nat -> nat
@@ -4097,7 +4418,7 @@ val constrain_body : nat -> nat -> nat -> nat -> nat -> nat * nat
 
 val constrain_loop0 : nat -> nat -> nat -> nat -> nat -> nat -> nat * nat
 
-val constrain1 : nat -> nat -> nat -> nat -> nat -> nat * nat
+val constrain2 : nat -> nat -> nat -> nat -> nat -> nat * nat
 
 val put : nat -> str -> row -> row
 
@@ -4123,17 +4444,19 @@ val set_draw : term1 -> row list -> iline list -> term1
 
 val set_scroll : term1 -> nat -> nat -> term1
 
-val item_text : nat -> str -> str
+val item_text : nat -> nat -> str -> str
+
+val prompt_item_text : nat -> str -> str
 
 val idx_is : nat option -> nat -> bool
 
 val print_item :
-  nat -> nat -> nat -> nat list -> nat -> (nat * str) -> (iline * row) ->
-  iline * row
+  nat -> nat -> nat -> nat -> nat list -> nat -> (nat * str) -> (iline * row)
+  -> iline * row
 
 val draw_rows :
-  nat -> nat -> nat -> nat list -> nat -> (nat * str) list -> (iline * row)
-  list -> (iline * row) list
+  nat -> nat -> nat -> nat -> nat list -> nat -> (nat * str) list ->
+  (iline * row) list -> (iline * row) list
 
 val list_start : cfg1 -> nat
 
@@ -4149,7 +4472,7 @@ val print_info : cfg1 -> term1 -> term1
 
 val hdr_logical : cfg1 -> str list
 
-val print_header_from : nat -> nat -> str list -> row list -> row list
+val print_header_from : nat -> nat -> nat -> str list -> row list -> row list
 
 val print_header : cfg1 -> term1 -> term1
 
@@ -4192,6 +4515,8 @@ val as_view : val0 -> view
 val as_reqs : val0 -> reqs
 
 val as_upd : val0 -> upd
+
+val as_mrows : val0 -> mrows
 
 val vrows : row list -> val0
 
@@ -4347,7 +4672,7 @@ val constrain_iter : z -> z -> z -> z -> z -> (z * z) res
 
 val constrain_loop1 : nat -> z -> z -> z -> z -> z -> (z * z) res
 
-val constrain2 : z -> z -> z -> z -> z -> (z * z) res
+val constrain3 : z -> z -> z -> z -> z -> (z * z) res
 
 type tstate = { t_next : nat; t_ledger : ledger; t_preview : nat list;
                 t_newcmd : nat list; t_box : nat list; t_nextcmd : nat list;
@@ -4388,6 +4713,96 @@ val as_tev : val0 -> tev
 val vres2 : (z * z) res -> val0
 
 val dispatch_term : z -> val0 -> val0 option
+
+type tcell = z list
+
+type tmem = tcell list
+
+type slice2 = { sl_cell : nat; sl_off0 : nat; sl_len0 : nat }
+
+val mem_alloc : tmem -> tcell -> tmem * nat
+
+val sl_cap : tmem -> slice2 -> nat res
+
+val sl_read : tmem -> slice2 -> z list res
+
+val sl_sub : tmem -> slice2 -> nat -> nat -> slice2 res
+
+val cell_write : tcell -> nat -> z list -> tcell
+
+val sl_append : tmem -> slice2 -> z list -> (tmem * slice2) res
+
+val sl_set : tmem -> slice2 -> nat -> z -> tmem res
+
+val copy_runes : tmem -> slice2 -> (tmem * slice2) res
+
+val nil_slice : tmem -> tmem * slice2
+
+type chars = { ch_bytes : bool; ch_sl : slice2 }
+
+val chars_text : tmem -> chars -> z list res
+
+val chars_to_runes : tmem -> chars -> (tmem * slice2) res
+
+val owned_text : bool -> tmem -> chars -> (tmem * slice2) res
+
+val split_lines : z list -> nat -> nat -> nat -> z -> (nat * nat) list * nat
+
+val sub_all : tmem -> slice2 -> (nat * nat) list -> slice2 list res
+
+val wrap_line0 :
+  (z list -> z -> z -> nat option) -> nat -> tmem -> slice2 -> bool -> bool
+  -> slice2 list -> z -> z -> z -> z -> ((tmem * slice2 list) * bool) res
+
+val wrap_all :
+  (z list -> z -> z -> nat option) -> tmem -> slice2 list -> slice2 list -> z
+  -> z -> z -> z -> ((tmem * slice2 list) * bool) res
+
+val chars_lines :
+  (z list -> z -> z -> nat option) -> bool -> tmem -> chars -> bool -> z -> z
+  -> z -> z -> ((tmem * slice2 list) * bool) res
+
+val item_lines0 :
+  (z list -> z -> z -> nat option) -> bool -> tmem -> chars -> bool -> bool
+  -> z -> z -> z -> z -> ((tmem * slice2 list) * bool) res
+
+type pop =
+| PSub of nat * nat * nat
+| PApp of nat * z list
+| PAppS of nat * nat
+| PSet of nat * nat * z
+
+val reg : slice2 list -> nat -> slice2 res
+
+val pstep : tmem -> slice2 list -> pop -> (tmem * slice2 list) res
+
+val prun : tmem -> slice2 list -> pop list -> (tmem * slice2 list) res
+
+val wide : z -> bool
+
+val simple_ovf_from : z list -> nat -> z -> z -> z -> nat option
+
+val simple_ovf : z list -> z -> z -> nat option
+
+val changed_items : str list -> (z * str) list -> z list
+
+val prefixb1 : str -> str -> bool
+
+val contains0 : str -> str -> bool
+
+val substr_filter : str -> z -> str list -> z list
+
+val as_pop : val0 -> pop
+
+val v_read : tmem -> slice2 -> val0
+
+val v_line : tmem -> slice2 -> val0
+
+val d_textmem : val0 -> val0
+
+val as_rep : val0 -> z * str
+
+val dispatch_textstore : z -> val0 -> val0 option
 
 val is_blank1 : z -> bool
 
@@ -4449,7 +4864,41 @@ val is_space1 : z -> bool
 
 val trim_right1 : (z -> bool) -> str -> str
 
+val trim_both : (z -> bool) -> str -> str
+
 val inside_selection : fexpr0 -> nat -> str list -> nat -> nat -> bool
+
+val without_suffix : str -> str -> str option
+
+val strip_literal : str -> str -> str
+
+val strip_occurrence : (nat * nat) list -> str -> str
+
+type dspec =
+| DSAwk
+| DSLiteral of str
+| DSRegexp of (str -> (nat * nat) list)
+
+val strip_delim : dspec -> str -> str
+
+val output_text : dspec -> str -> str
+
+val fields_text : fexpr0 list -> str list -> str
+
+val map_last_pure : ('a1 -> 'a1) -> 'a1 list -> 'a1 list
+
+val search_texts : dspec -> fexpr0 list -> str list -> str list
+
+type tpart0 =
+| TLit0 of str
+| TIndex0
+| TFields0 of fexpr0 list
+
+val render_part : dspec -> str list -> z -> tpart0 -> str
+
+val render_template : dspec -> str list -> z -> tpart0 list -> str
+
+val placeholder_text : dspec -> bool -> fexpr0 list -> str list -> str
 
 type token = { t_text0 : str; t_prefix : z }
 
@@ -4460,7 +4909,7 @@ type delimiter =
 
 val is_awk : delimiter -> bool
 
-val slice2 : str -> nat -> nat -> str res
+val slice3 : str -> nat -> nat -> str res
 
 val with_prefix_lengths : str list -> z -> token list
 
@@ -4481,7 +4930,7 @@ val has_prefix3 : str -> str -> bool
 
 val has_suffix3 : str -> str -> bool
 
-val contains0 : str -> str -> bool
+val contains1 : str -> str -> bool
 
 val trim_suffix1 : str -> str -> str
 
@@ -4489,7 +4938,7 @@ val split_go : str -> nat -> str -> str -> str list
 
 val split : str -> str -> str list
 
-val is_digit2 : z -> bool
+val is_digit3 : z -> bool
 
 val digits_value : str -> z
 
@@ -4538,6 +4987,19 @@ val nth_transformer : range0 list -> token list -> str res
 
 val accept_nth0 : str -> range0 list -> delimiter -> str res
 
+type nth_part0 =
+| PStr1 of str
+| PIndex0
+| PNth1 of range0 list
+
+val nth_template : nth_part0 list -> delimiter -> token list -> z -> str res
+
+val with_nth_template : nth_part0 list -> str -> delimiter -> z -> str res
+
+val accept_nth_template : nth_part0 list -> str -> delimiter -> z -> str res
+
+val placeholder_fields : str -> range0 list -> delimiter -> bool -> str res
+
 val vtok : token -> val0
 
 val vtoks : token list -> val0
@@ -4569,6 +5031,14 @@ val mf_lookup :
   list) option
 
 val as_match_fn : val0 -> match_fn
+
+val as_dspec : val0 -> dspec
+
+val as_fexprs0 : val0 -> fexpr0 list
+
+val as_tpart0 : val0 -> tpart0
+
+val as_nth_part : val0 -> nth_part0
 
 val vres0 : ('a1 -> val0) -> 'a1 res -> val0
 
